@@ -84,3 +84,33 @@ Fixpoint wl (g : nat -> nat) (h : held) (t : thread) : bool :=
   end.
 
 Definition well_locked (g : nat -> nat) (t : thread) : Prop := wl g [] t = true.
+
+(* ------------------------------------------------------------------ *)
+(** * A shared counter handing out identifiers (session ids)           *)
+(* CAdd: one atomic read-modify-write (atomic.AddUint64) returning the new value;
+   CLoad: atomic load into the thread's local; CStore: atomic store of local+1,
+   which is also the value handed out. A Load followed by a Store is TWO events:
+   other threads may run in between. *)
+Inductive cop := CAdd | CLoad | CStore | COther.
+Definition cthreads := nat -> nat * list cop.             (* local copy, remaining operations *)
+Record cstate := mk_cs_state { c_val : nat; c_thr : cthreads; c_out : list nat }.
+
+Definition cupd (t : cthreads) (i : nat) (v : nat * list cop) : cthreads :=
+  fun j => if Nat.eqb j i then v else t j.
+
+Inductive cstep : cstate -> cstate -> Prop :=
+| cstep_add s i l r t' : c_thr s i = (l, CAdd :: r) -> (forall j, t' j = cupd (c_thr s) i (l, r) j) ->
+    cstep s (mk_cs_state (S (c_val s)) t' (S (c_val s) :: c_out s))
+| cstep_load s i l r t' : c_thr s i = (l, CLoad :: r) -> (forall j, t' j = cupd (c_thr s) i (c_val s, r) j) ->
+    cstep s (mk_cs_state (c_val s) t' (c_out s))
+| cstep_store s i l r t' : c_thr s i = (l, CStore :: r) -> (forall j, t' j = cupd (c_thr s) i (l, r) j) ->
+    cstep s (mk_cs_state (S l) t' (S l :: c_out s)).
+
+Inductive creach : cstate -> cstate -> Prop :=
+| creach_refl s : creach s s
+| creach_step s s' s'' : creach s s' -> cstep s' s'' -> creach s s''.
+
+Definition cinit (c0 : nat) (ts : list (list cop)) : cstate :=
+  mk_cs_state c0 (fun i => (0, nth i ts [])) [].
+
+Definition is_add (o : cop) : bool := match o with CAdd => true | _ => false end.
